@@ -91,6 +91,57 @@ theorem records_atomic_partial (cfg : Cfg) (hfix : cfg.tailSplit = false) (host 
   simp only [h1, h2, beq_self_eq_true, Bool.true_and]
   exact ht
 
+/-- THE 8 KiB CLAUSE, EXACTLY.  The property promises "the whole fragment when it is shorter than 8 KiB".
+    What the code does with a final fragment `t` of ANY length (stream in the domain, every chunking,
+    repaired tail form): after the line records, the first stdio call carries the label and the first
+    T-1 bytes of `t`, each further call the next T-1 bytes WITHOUT a label, the last one the remainder,
+    where T = RELAY_TAILBUF is `sizeof buf` in `_flush_output`, regenerated from dsh.c on every run
+    (`tailbuf_ge`: T >= 8192 is all the proofs use).  So ... -/
+theorem final_fragment_cut_exactly (cfg : Cfg) (hfix : cfg.tailSplit = false) (host t0host : Bytes) (strm : Nat)
+    (readRc : Bool) {sizeMeta : Nat} (hg : growthOk sizeMeta = true) {b0 : PBuf}
+    (hb0 : mkFifoBuf sizeMeta = some b0) (script : List Bytes)
+    (hdom : Spec.Dom05 (markerOf readRc) script.flatten = true) (ht : Spec.tail script.flatten ≠ []) :
+    ((runStream fifoOps cfg host t0host strm readRc b0 script).ems.map Em.bytes).drop
+        (Spec.lines script.flatten).length =
+      (pfx cfg host ++ (Spec.tail script.flatten).take (Gen.RELAY_TAILBUF - 1)) ::
+        cutEvery (Gen.RELAY_TAILBUF - 1) (Spec.tail script.flatten).length
+          ((Spec.tail script.flatten).drop (Gen.RELAY_TAILBUF - 1)) := by
+  obtain ⟨_, h2⟩ := line_records_atomic cfg host t0host strm readRc hg hb0 script hdom
+  have h0 : ∀ b ∈ Spec.tail script.flatten, b ≠ 0 := fun b hb => dom_noNul hdom b (mem_of_mem_rest hb)
+  rw [h2]
+  exact tailEms_exact cfg host strm hfix _ _ h0 ht
+
+/-- ... the fragment is ONE record (label and all its bytes in one stdio call) if and only if it is at most
+    T-1 bytes long -- in particular whenever it is shorter than 8 KiB (T >= 8192) -- and a fragment of T-1+k bytes
+    (k > 0) is one labelled record of T-1 bytes followed by unlabelled pieces: between those pieces another
+    host's record can land (nothing the property forbids: its clause ends at 8 KiB). -/
+theorem final_fragment_whole_iff (cfg : Cfg) (hfix : cfg.tailSplit = false) (host t0host : Bytes) (strm : Nat)
+    (readRc : Bool) {sizeMeta : Nat} (hg : growthOk sizeMeta = true) {b0 : PBuf}
+    (hb0 : mkFifoBuf sizeMeta = some b0) (script : List Bytes)
+    (hdom : Spec.Dom05 (markerOf readRc) script.flatten = true) (ht : Spec.tail script.flatten ≠ []) :
+    ((((runStream fifoOps cfg host t0host strm readRc b0 script).ems.map Em.bytes).drop
+        (Spec.lines script.flatten).length).length = 1 ↔
+      (Spec.tail script.flatten).length ≤ Gen.RELAY_TAILBUF - 1) ∧
+    ((Spec.tail script.flatten).length < 8192 → (Spec.tail script.flatten).length ≤ Gen.RELAY_TAILBUF - 1) := by
+  rw [final_fragment_cut_exactly cfg hfix host t0host strm readRc hg hb0 script hdom ht]
+  refine ⟨?_, fun h => by have := tailbuf_val; omega⟩
+  simp only [List.length_cons]
+  by_cases hd : (Spec.tail script.flatten).drop (Gen.RELAY_TAILBUF - 1) = []
+  · have hle : (Spec.tail script.flatten).length ≤ Gen.RELAY_TAILBUF - 1 := by simpa using hd
+    have hl : 0 < (Spec.tail script.flatten).length := List.length_pos_iff.mpr ht
+    have : cutEvery (Gen.RELAY_TAILBUF - 1) (Spec.tail script.flatten).length
+        ((Spec.tail script.flatten).drop (Gen.RELAY_TAILBUF - 1)) = [] := by
+      rw [hd]
+      cases (Spec.tail script.flatten).length <;> simp [cutEvery]
+    simp [this, hle]
+  · have hgt : ¬ (Spec.tail script.flatten).length ≤ Gen.RELAY_TAILBUF - 1 := by
+      intro h; apply hd; simpa using h
+    have hl : 0 < (Spec.tail script.flatten).length := List.length_pos_iff.mpr ht
+    obtain ⟨f, hf⟩ : ∃ f, (Spec.tail script.flatten).length = f + 1 := ⟨_, (Nat.succ_pred_eq_of_pos hl).symm⟩
+    rw [hf]
+    simp [cutEvery, hd]
+    omega
+
 /-- `tail_split_is_the_defect` (D6, the code as it stands): with labels on, EVERY stream that
     ends in an unterminated fragment is written with the label as a stdio call of its own,
     followed by the fragment's bytes by further calls -- the specification's `tailSplitForm` --
